@@ -84,6 +84,21 @@ theorem scaleAll_eq_caps (k : Rat) (a : AssetProblem) (hl : a.l.length = a.n) (h
 @[simp] theorem scaleCaps_u_length (k : Rat) (a : AssetProblem) : (scaleProblemCaps k a).u.length = a.u.length := by
   simp [scaleProblemCaps, mapAt_length]
 
+theorem scaleCaps_l (k : Rat) (a : AssetProblem) :
+    (scaleProblemCaps k a).l = mapAt (dispVars a.mapping) (· * k) a.l := rfl
+theorem scaleCaps_u (k : Rat) (a : AssetProblem) :
+    (scaleProblemCaps k a).u = mapAt (dispVars a.mapping) (· * k) a.u := rfl
+
+/-- what `EAO.C16.scaled_fixed` asks of a base problem, for a built contract / transport on a grid with steps -/
+theorem builtWf_hyps {name : String} {nodes : List String} {g : Grid} {P : AssetProblem}
+    (hw : BuiltWf name nodes g P) (hT : g.T ≠ 0) :
+    0 < P.n ∧ P.l.length = P.n ∧ P.u.length = P.n ∧ ∀ d ∈ dispVars P.mapping, d < P.n := by
+  refine ⟨?_, hw.l_len, hw.u_len, dispVars_lt P (fun m hm => (hw.map_ok m hm).1)⟩
+  rcases hw.n_eq with h | h <;> omega
+
+theorem div_pos' {s n : Rat} (hs : 0 < s) (hn : 0 < n) : 0 < s / n := by
+  rw [Rat.div_def]; exact Rat.mul_pos hs (Rat.inv_pos.mpr hn)
+
 /-! ### vectors of a contract under `capsTimes` -/
 
 abbrev scO (k : Rat) : List (Option Rat) → List (Option Rat) := List.map (Option.map (· * k))
@@ -389,5 +404,419 @@ theorem extTransport_caps' {k : Rat} (hk : 0 < k) (p : TransportP) (g : Grid) (p
   | ok a =>
     simp only [Except.map, bind, Except.bind, pure, Except.pure, defineRestr_caps]
     simp only [scaleAll, List.map_append]
+
+/-! ### every variable of a built contract / transport is a capacity variable -/
+
+theorem dispRow_mem_dispBlock (asset node varName : String) (off : Nat) (g : Grid) (i : Nat) (hi : i < g.idx.length) :
+    dispRow asset node varName (off + i) (g.idx[i]) ∈ dispBlock asset node varName off g := by
+  simp only [dispBlock, List.mem_map]
+  exact ⟨(g.idx[i], i), List.mk_mem_zipIdx_iff_getElem?.mpr (by simp [hi]), rfl⟩
+
+theorem trRow_mem_transportBlock (asset node : String) (f : Rat) (g : Grid) (i : Nat) (hi : i < g.idx.length) :
+    trRow asset node f i (g.idx[i]) ∈ transportBlock asset node f g := by
+  simp only [transportBlock, List.mem_map]
+  exact ⟨(g.idx[i], i), List.mk_mem_zipIdx_iff_getElem?.mpr (by simp [hi]), rfl⟩
+
+theorem fullCap_scOne {p : ContractP} {g : Grid} {d : SCData} (hg : g.Ok)
+    (hl : d.price.length = g.T ∧ d.ec.length = g.T ∧ d.minC.length = g.T ∧ d.maxC.length = g.T) :
+    FullCap (scOne p g d) := by
+  have hc : (scOne p g d).n = g.T := by
+    simp [scOne, AssetProblem.n, oneVarPrice_length hl.1 hl.2.1, hg.2.2]
+  intro j hj
+  rw [hc, ← hg.1] at hj
+  rw [mem_dispVars]
+  exact ⟨dispRow p.name d.node "disp" (0 + j) (g.idx[j]), dispRow_mem_dispBlock p.name d.node "disp" 0 g j hj, rfl,
+    by simp [dispRow]⟩
+
+theorem fullCap_scTwo {p : ContractP} {g : Grid} {d : SCData} (hg : g.Ok)
+    (hl : d.price.length = g.T ∧ d.ec.length = g.T ∧ d.minC.length = g.T ∧ d.maxC.length = g.T) :
+    FullCap (scTwo p g d) := by
+  have hc : (scTwo p g d).n = 2 * g.T := by
+    simp [scTwo, AssetProblem.n, hl.1, hl.2.1, hg.2.2]; omega
+  intro j hj
+  rw [hc] at hj
+  rw [mem_dispVars]
+  by_cases h1 : j < g.T
+  · have hj' : j < g.idx.length := by rw [hg.1]; exact h1
+    refine ⟨dispRow p.name d.node "disp_in" (0 + j) (g.idx[j]), ?_, rfl, by simp [dispRow]⟩
+    simp only [scTwo, List.mem_append]
+    exact Or.inl (dispRow_mem_dispBlock p.name d.node "disp_in" 0 g j hj')
+  · have hj' : j - g.T < g.idx.length := by rw [hg.1]; omega
+    refine ⟨dispRow p.name d.node "disp_out" (g.T + (j - g.T)) (g.idx[j - g.T]), ?_, rfl, by simp only [dispRow]; omega⟩
+    simp only [scTwo, List.mem_append]
+    exact Or.inr (dispRow_mem_dispBlock p.name d.node "disp_out" g.T g (j - g.T) hj')
+
+theorem simple_fullCap {p : ContractP} {g : Grid} {prices : Prices} {fullT : Nat} {P : AssetProblem}
+    (hg : g.Ok) (h : buildSimpleContract p g prices fullT = .ok P) : FullCap P := by
+  obtain ⟨d, minO, maxO, ecO, hp, hv, he, hmi, hma, _, rfl⟩ := buildSimpleContract_ok h
+  have hl := scData_lengths hg hp hv he hmi hma
+  split
+  · exact fullCap_scOne hg hl
+  · exact fullCap_scTwo hg hl
+
+theorem contract_fullCap {p : ContractP} {g : Grid} {prices : Prices} {fullT u : Nat} {P : AssetProblem}
+    (hg : g.Ok) (h : buildContract p g prices fullT u = .ok P) : FullCap P := by
+  obtain ⟨a, ha, rfl⟩ := buildContract_ok h
+  intro j hj
+  exact simple_fullCap hg ha j hj
+
+theorem multi_fullCap {p : ContractP} {factors : List Rat} {g : Grid} {prices : Prices} {fullT u : Nat}
+    {P : AssetProblem} (hg : g.Ok) (h : buildMulti p factors g prices fullT u = .ok P) : FullCap P := by
+  obtain ⟨hf, a, ha, rfl⟩ := buildMulti_ok h
+  have hfc := contract_fullCap hg ha
+  obtain ⟨a0, ha0, _⟩ := buildContract_ok ha
+  obtain ⟨d, _, _, _, _, _, _, _, _, ⟨rest, hn⟩, _⟩ := buildSimpleContract_ok ha0
+  intro j hj
+  obtain ⟨m, hm, hcap, hvar⟩ := (mem_dispVars _ _).mp (hfc j hj)
+  cases hfs : factors with
+  | nil => rw [hfs, hn] at hf; simp at hf
+  | cons f fs =>
+    rw [mem_dispVars]
+    refine ⟨{ m with node := some d.node, factor := m.factor * f }, ?_, hcap, hvar⟩
+    simp only [List.mem_flatMap, List.mem_map]
+    exact ⟨(d.node, f), by rw [hn]; simp, m, hm, rfl⟩
+
+theorem transport_fullCap {p : TransportP} {g : Grid} {prices : Prices} {fullT : Nat} {P : AssetProblem}
+    (hg : g.Ok) (h : buildTransport p g prices fullT = .ok P) : FullCap P := by
+  have hw := transport_wf' hg h
+  obtain ⟨n0, n1, cts, hn, _, _, hc, rfl⟩ := buildTransport_ok h
+  have hlen := transportCosts_length hc
+  have hn' : (trProblem p g n0 n1 cts).n = g.T := by
+    simp only [AssetProblem.n, trProblem]
+    split <;> simp [hlen, hg.1, hg.2.2]
+  intro j hj
+  rw [hn', ← hg.1] at hj
+  rw [mem_dispVars]
+  refine ⟨trRow p.name n0 (-1) j (g.idx[j]), ?_, rfl, by simp [trRow]⟩
+  simp only [trProblem, List.mem_append]
+  exact Or.inl (trRow_mem_transportBlock p.name n0 (-1) g j hj)
+
+theorem extTransport_fullCap {p : TransportP} {g : Grid} {prices : Prices} {fullT u : Nat} {P : AssetProblem}
+    (hg : g.Ok) (h : buildExtTransport p g prices fullT u = .ok P) : FullCap P := by
+  obtain ⟨a, ha, rfl⟩ := buildExtTransport_ok h
+  intro j hj
+  exact transport_fullCap hg ha j hj
+
+/-- on results whose variables are all capacity variables `scaleAll` is `scaleProblemCaps` -/
+theorem map_scaleAll_eq (k : Rat) (r : Except BuildError AssetProblem)
+    (h : ∀ P, r = .ok P → P.l.length = P.n ∧ P.u.length = P.n ∧ FullCap P) :
+    r.map (scaleAll k) = r.map (scaleProblemCaps k) := by
+  cases r with
+  | error e => rfl
+  | ok P =>
+    obtain ⟨h1, h2, h3⟩ := h P rfl
+    simp only [Except.map, scaleAll_eq_caps k P h1 h2 h3]
+
+/-! ### the storage in LP form -/
+
+section storage
+open EAO.Storage
+variable (k : Rat) (p : StorageP) (g : Grid)
+
+theorem cp_caps (i : Nat) : cp (p.capsTimes k) g i = cp p g i * k := by
+  simp only [cp, StorageP.capsTimes]; grind
+
+theorem ct_caps (i : Nat) : ct (p.capsTimes k) g i = ct p g i * k := by
+  simp only [ct, StorageP.capsTimes]; grind
+
+theorem cumInfl_caps (m : Nat) : cumInfl (p.capsTimes k) g m = cumInfl p g m * k := by
+  unfold cumInfl
+  rw [← sumTo_mul]
+  congr 1
+  funext j
+  simp only [infl, StorageP.capsTimes]; grind
+
+theorem blockStart_caps (a : Nat) : blockStart (p.capsTimes k) a = blockStart p a * k := by
+  unfold blockStart
+  split <;> rfl
+
+theorem upRhs_caps (a e i : Nat) : upRhs (p.capsTimes k) g a e i = upRhs p g a e i * k := by
+  unfold upRhs blockInfl
+  rw [cumInfl_caps, cumInfl_caps, blockStart_caps]
+  simp only [StorageP.capsTimes]
+  split <;> grind
+
+theorem loRhs_caps (a e i : Nat) : loRhs (p.capsTimes k) g a e i = loRhs p g a e i * k := by
+  unfold loRhs blockInfl
+  rw [cumInfl_caps, cumInfl_caps, blockStart_caps]
+  simp only [StorageP.capsTimes]
+  split <;> grind
+
+theorem sep_caps : sep (p.capsTimes k) = sep p := rfl
+theorem hasNS_caps : hasNS (p.capsTimes k) = hasNS p := rfl
+theorem nd_caps (n : Nat) : nd (p.capsTimes k) n = nd p n := rfl
+theorem mHold_caps (n : Nat) : mHold (p.capsTimes k) n = mHold p n := rfl
+theorem nVars_caps (n : Nat) : nVars (p.capsTimes k) n = nVars p n := rfl
+theorem levelCoeffs_caps (n a i : Nat) : levelCoeffs (p.capsTimes k) n a i = levelCoeffs p n a i := rfl
+theorem costVec_caps (n : Nat) (pr : Nat → Rat) : costVec (p.capsTimes k) g n pr = costVec p g n pr := rfl
+theorem mapping_caps (n : Nat) : Storage.mapping (p.capsTimes k) g n = Storage.mapping p g n := rfl
+theorem holdRows_caps (n : Nat) : holdRows (p.capsTimes k) g n = holdRows p g n := rfl
+theorem blocksOf_caps (n : Nat) : blocksOf (p.capsTimes k) n = blocksOf p n := rfl
+theorem priceVec_caps (T : Nat) (prices : Prices) : priceVec (p.capsTimes k) g T prices = priceVec p g T prices := rfl
+
+theorem upperRow_caps (hh : p.maxStoreDuration = none) (n a e i : Nat) :
+    upperRow (p.capsTimes k) g n a e i = scaleRhs k (upperRow p g n a e i) := by
+  have h' : (p.capsTimes k).maxStoreDuration = none := hh
+  unfold upperRow
+  rw [h', hh]
+  simp only [scaleRhs, upRhs_caps, levelCoeffs_caps]
+
+theorem lowerRow_caps (n a e i : Nat) :
+    lowerRow (p.capsTimes k) g n a e i = scaleRhs k (lowerRow p g n a e i) := by
+  unfold lowerRow
+  simp only [scaleRhs, loRhs_caps, levelCoeffs_caps]
+
+theorem upperRows_caps (hh : p.maxStoreDuration = none) (n : Nat) (bl : List (Nat × Nat)) :
+    upperRows (p.capsTimes k) g n bl = (upperRows p g n bl).map (scaleRhs k) := by
+  unfold upperRows
+  simp only [List.map_flatMap, List.map_map, Function.comp_def, upperRow_caps k p g hh]
+
+theorem lowerRows_caps (n : Nat) (bl : List (Nat × Nat)) :
+    lowerRows (p.capsTimes k) g n bl = (lowerRows p g n bl).map (scaleRhs k) := by
+  unfold lowerRows
+  simp only [List.map_flatMap, List.map_map, Function.comp_def, lowerRow_caps k p g]
+
+theorem nVars_lp (hns : hasNS p = false) (hh : p.maxStoreDuration = none) (n : Nat) : nVars p n = nd p n := by
+  simp [nVars, mHold, hns, hh]
+
+theorem map_zero_scale {α} (l : List α) : (l.map fun _ => (0 : Rat)).map (· * k) = l.map fun _ => (0 : Rat) := by
+  simp [List.map_map, Function.comp_def, Rat.zero_mul]
+
+theorem lowerVec_caps (n : Nat) : lowerVec (p.capsTimes k) g n = (lowerVec p g n).map (· * k) := by
+  unfold lowerVec
+  rw [sep_caps, nVars_caps, nd_caps]
+  have h1 : ((List.range n).map fun i => -(cp (p.capsTimes k) g i)) = ((List.range n).map fun i => -(cp p g i)).map (· * k) := by
+    simp only [List.map_map]
+    apply List.map_congr_left
+    intro i _
+    simp only [Function.comp, cp_caps]; grind
+  rw [h1]
+  split <;> simp only [List.map_append, map_zero_scale]
+
+theorem upperVec_caps (hns : hasNS p = false) (hh : p.maxStoreDuration = none) (n : Nat) :
+    upperVec (p.capsTimes k) g n = (upperVec p g n).map (· * k) := by
+  unfold upperVec
+  rw [sep_caps, nVars_caps, nd_caps, nVars_lp p hns hh, Nat.sub_self]
+  have h1 : ((List.range n).map fun i => ct (p.capsTimes k) g i) = ((List.range n).map fun i => ct p g i).map (· * k) := by
+    simp only [List.map_map]
+    apply List.map_congr_left
+    intro i _
+    simp only [Function.comp, ct_caps]
+  rw [h1]
+  split <;> simp only [List.map_append, map_zero_scale, List.range_zero, List.map_nil]
+
+theorem nsRows_lp (hns : hasNS p = false) (n : Nat) : nsRows p g n = [] := by
+  simp [nsRows, hns]
+
+theorem holdRows_lp (hh : p.maxStoreDuration = none) (n : Nat) : holdRows p g n = [] := by
+  simp [holdRows, hh]
+
+/-- `Storage` in LP form (no `no_simult_in_out` booleans, no `max_store_duration`): size, levels, inflow,
+    `cap_in`, `cap_out` times ANY `k` give the same problem with all bounds and right-hand sides times `k` -/
+theorem storage_caps' (hns : hasNS p = false) (hh : p.maxStoreDuration = none) (T : Nat) (prices : Prices) :
+    buildStorage (p.capsTimes k) g T prices = (buildStorage p g T prices).map (scaleAll k) := by
+  unfold buildStorage
+  rw [priceVec_caps, blocksOf_caps]
+  have hn : (p.capsTimes k).nodes = p.nodes := rfl
+  have hnm : (p.capsTimes k).name = p.name := rfl
+  rw [hn, hnm]
+  split
+  · rfl
+  cases priceVec p g T prices with
+  | error e => rfl
+  | ok pr =>
+    simp only []
+    split
+    · rfl
+    cases blocksOf p g.T with
+    | error e => rfl
+    | ok bl =>
+      simp only [Except.map, scaleAll, costVec_caps, lowerVec_caps, upperVec_caps k p g hns hh, mapping_caps,
+        upperRows_caps k p g hh, lowerRows_caps, nsRows_lp p g hns, nsRows_lp (p.capsTimes k) g hns,
+        holdRows_lp p g hh, holdRows_lp (p.capsTimes k) g hh, List.map_append, List.map_nil]
+
+/-- every variable of an LP storage is a capacity variable, and the bounds have the right length -/
+theorem storage_fullCap (hns : hasNS p = false) (hh : p.maxStoreDuration = none) {T : Nat} {prices : Prices}
+    {P : AssetProblem} (h : buildStorage p g T prices = .ok P) :
+    P.l.length = P.n ∧ P.u.length = P.n ∧ FullCap P := by
+  by_cases hne : g.dt.length = 0
+  · unfold buildStorage at h
+    rw [if_pos hne] at h
+    cases h
+    exact ⟨rfl, rfl, fun j hj => by simp [AssetProblem.n] at hj⟩
+  · obtain ⟨pr, bl, _, _, rfl⟩ := buildStorage_ok p g T prices P h hne
+    have hn : (costVec p g g.T pr).length = nd p g.T := by
+      simp only [costVec_length, nVars_lp p hns hh]
+    refine ⟨?_, ?_, ?_⟩
+    · show (lowerVec p g g.T).length = (costVec p g g.T pr).length
+      rw [hn]; simp only [lowerVec_length, nVars_lp p hns hh]
+    · show (upperVec p g g.T).length = (costVec p g g.T pr).length
+      rw [hn]; simp only [upperVec_length, nVars_lp p hns hh]
+    intro j hj
+    replace hj : j < nd p g.T := by rw [← hn]; exact hj
+    show j ∈ dispVars (Storage.mapping p g g.T)
+    rw [mem_dispVars]
+    simp only [Storage.mapping, dispMap, List.mem_append]
+    unfold nd at hj
+    by_cases hs : sep p = true
+    · simp only [hs, if_true] at hj ⊢
+      by_cases h1 : j < g.T
+      · exact ⟨{ var := j, asset := p.name, node := nodeIn p, kind := .d, step := idxAt g j, factor := 1,
+                 isBool := false, varName := "disp_in" },
+               Or.inl (Or.inl (List.mem_append.mpr (Or.inl (List.mem_map.mpr ⟨j, List.mem_range.mpr h1, rfl⟩)))), rfl, rfl⟩
+      · exact ⟨{ var := g.T + (j - g.T), asset := p.name, node := nodeOut p, kind := .d, step := idxAt g (j - g.T),
+                 factor := 1, isBool := false, varName := "disp_out" },
+               Or.inl (Or.inl (List.mem_append.mpr (Or.inr (List.mem_map.mpr ⟨j - g.T, List.mem_range.mpr (by omega), rfl⟩)))), rfl,
+               by simp only []; omega⟩
+    · simp only [hs, Bool.false_eq_true, if_false] at hj ⊢
+      exact ⟨{ var := j, asset := p.name, node := nodeIn p, kind := .d, step := idxAt g j, factor := 1,
+               isBool := false, varName := "disp" },
+             Or.inl (Or.inl (List.mem_map.mpr ⟨j, List.mem_range.mpr hj, rfl⟩)), rfl, rfl⟩
+
+
+/-- mapping rows of a built storage point at its variables; a storage on a grid with steps has variables -/
+theorem storage_map_lt {T : Nat} {prices : Prices} {P : AssetProblem} (h : buildStorage p g T prices = .ok P) :
+    (∀ m ∈ P.mapping, m.var < P.n) ∧ (g.dt.length ≠ 0 → g.T ≤ P.n) := by
+  by_cases hne : g.dt.length = 0
+  · unfold buildStorage at h
+    rw [if_pos hne] at h
+    cases h
+    exact ⟨fun m hm => by simp at hm, fun h => absurd hne h⟩
+  · obtain ⟨pr, bl, _, _, rfl⟩ := buildStorage_ok p g T prices P h hne
+    have hn : (costVec p g g.T pr).length = nVars p g.T := costVec_length p g g.T pr
+    refine ⟨fun m hm => ?_, fun _ => ?_⟩
+    · show m.var < (costVec p g g.T pr).length
+      rw [hn]
+      exact (storage_mapping_wf p g g.T m hm).2.1
+    · show g.T ≤ (costVec p g g.T pr).length
+      rw [hn]
+      have := nd_le_nVars p g.T
+      unfold nd at this
+      split at this <;> omega
+
+/-- the constructor guards survive a multiplication of the capacities by `k ≥ 0`, and for `k > 0` they hold
+    for the scaled storage iff they hold for the original -/
+theorem guards_caps_of_nonneg (hk : 0 ≤ k) (h : p.guards = true) : (p.capsTimes k).guards = true := by
+  unfold StorageP.guards at h ⊢
+  simp only [Bool.and_eq_true, decide_eq_true_eq] at h ⊢
+  obtain ⟨⟨⟨h1, h2⟩, h3⟩, h4⟩ := h
+  exact ⟨⟨⟨Rat.mul_le_mul_of_nonneg_right h1 hk, Rat.mul_nonneg h2 hk⟩, Rat.mul_nonneg h3 hk⟩, h4⟩
+
+theorem guards_caps (hk : 0 < k) : (p.capsTimes k).guards = p.guards := by
+  show (decide (p.startLevel * k ≤ p.size * k) && decide (0 ≤ p.capIn * k) && decide (0 ≤ p.capOut * k)
+      && decide (p.nodes.length ≤ 2)) = p.guards
+  rw [decide_eq_decide.mpr (mul_le_mul_pos_iff p.startLevel p.size k hk),
+      decide_eq_decide.mpr (mul_nonneg_iff_pos p.capIn k hk), decide_eq_decide.mpr (mul_nonneg_iff_pos p.capOut k hk)]
+  rfl
+
+end storage
+
+/-! ### `k = 0`: all capacities zero -/
+
+/-- all bounds are zero -/
+def ZeroBox (a : AssetProblem) : Prop := (∀ v ∈ a.l, v = 0) ∧ (∀ v ∈ a.u, v = 0)
+
+theorem getD_of_all_zero (l : List Rat) (h : ∀ v ∈ l, v = 0) (j : Nat) : l.getD j 0 = 0 := by
+  rw [List.getD_eq_getElem?_getD]
+  cases hj : l[j]? with
+  | none => rfl
+  | some v => exact h v (List.mem_of_getElem? hj)
+
+theorem zeroBox_point {a : AssetProblem} (hz : ZeroBox a) {x : Vec} (hx : InBounds a.l a.u x) :
+    ∀ j, j < a.l.length → x j = 0 := by
+  intro j hj
+  have := hx j hj
+  rw [getD_of_all_zero a.l hz.1, getD_of_all_zero a.u hz.2] at this
+  grind
+
+theorem costAt_zero (c : List Rat) (off : Nat) (x : Vec) (h : ∀ j, j < c.length → x (off + j) = 0) :
+    costAt c off x = 0 := by
+  induction c generalizing off with
+  | nil => simp
+  | cons a cs ih =>
+    rw [costAt_cons, ih (off + 1) (fun j hj => by
+      have := h (j + 1) (by simp; omega)
+      rwa [show off + (j + 1) = off + 1 + j by omega] at this)]
+    have := h 0 (by simp)
+    rw [Nat.add_zero] at this
+    rw [this]; grind
+
+theorem allSome_scO_zero {xs : List (Option Rat)} {ys : List Rat} (h : allSome (scO 0 xs) = .ok ys) :
+    ∀ v ∈ ys, v = 0 := by
+  rw [allSome_scale] at h
+  cases ha : allSome xs with
+  | error e => rw [ha] at h; cases h
+  | ok zs =>
+    rw [ha] at h
+    simp only [Except.map] at h
+    injection h with h
+    subst h
+    intro v hv
+    obtain ⟨z, _, rfl⟩ := List.mem_map.mp hv
+    exact Rat.mul_zero z
+
+theorem makeVector_scale_zero {v : ParamValue} (hv : v.isKey = false) {g : Grid} {prices : Prices}
+    {xs : List (Option Rat)} (h : makeVector (v.scale 0) g prices none true = .ok xs) : ∃ ys, xs = scO 0 ys := by
+  rw [makeVector_scale 0 hv] at h
+  cases hm : makeVector v g prices none true with
+  | error e => rw [hm] at h; cases h
+  | ok ys =>
+    rw [hm] at h
+    simp only [Except.map] at h
+    injection h with h
+    exact ⟨ys, h.symm⟩
+
+theorem rmin_zero : rmin 0 0 = 0 := by decide +kernel
+theorem rmax_zero : rmax 0 0 = 0 := by decide +kernel
+
+/-- a simple contract with all capacities zero: all bounds zero (whatever form it takes) -/
+theorem simple_zeroBox {p : ContractP} (hmin : p.minCap.isKey = false) (hmax : p.maxCap.isKey = false) {g : Grid}
+    {prices : Prices} {fullT : Nat} {P : AssetProblem}
+    (h : buildSimpleContract (p.capsTimes 0) g prices fullT = .ok P) : ZeroBox P := by
+  obtain ⟨d, minO, maxO, ecO, _, hv, _, hmi, hma, _, rfl⟩ := buildSimpleContract_ok h
+  obtain ⟨h1, h2, _, _⟩ := contractVectors_ok hv
+  obtain ⟨y1, rfl⟩ := makeVector_scale_zero hmax h1
+  obtain ⟨y2, rfl⟩ := makeVector_scale_zero hmin h2
+  have z1 := allSome_scO_zero hma
+  have z2 := allSome_scO_zero hmi
+  split
+  · exact ⟨z2, z1⟩
+  · constructor
+    · intro v hv
+      simp only [scTwo, List.mem_append, List.mem_map] at hv
+      rcases hv with ⟨w, hw, rfl⟩ | ⟨w, hw, rfl⟩
+      · rw [z2 w hw]; exact rmin_zero
+      · rw [z2 w hw]; exact rmax_zero
+    · intro v hv
+      simp only [scTwo, List.mem_append, List.mem_map] at hv
+      rcases hv with ⟨w, hw, rfl⟩ | ⟨w, hw, rfl⟩
+      · rw [z1 w hw]; exact rmin_zero
+      · rw [z1 w hw]; exact rmax_zero
+
+theorem contract_zeroBox {p : ContractP} (hmin : p.minCap.isKey = false) (hmax : p.maxCap.isKey = false) {g : Grid}
+    {prices : Prices} {fullT u : Nat} {P : AssetProblem}
+    (h : buildContract (p.capsTimes 0) g prices fullT u = .ok P) : ZeroBox P := by
+  obtain ⟨a, ha, rfl⟩ := buildContract_ok h
+  exact (simple_zeroBox hmin hmax ha : ZeroBox a)
+
+theorem multi_zeroBox {p : ContractP} {factors : List Rat} (hmin : p.minCap.isKey = false)
+    (hmax : p.maxCap.isKey = false) {g : Grid} {prices : Prices} {fullT u : Nat} {P : AssetProblem}
+    (h : buildMulti (p.capsTimes 0) factors g prices fullT u = .ok P) : ZeroBox P := by
+  obtain ⟨_, a, ha, rfl⟩ := buildMulti_ok h
+  exact (contract_zeroBox hmin hmax ha : ZeroBox a)
+
+theorem transport_zeroBox {p : TransportP} {g : Grid} {prices : Prices} {fullT : Nat} {P : AssetProblem}
+    (h : buildTransport (p.capsTimes 0) g prices fullT = .ok P) : ZeroBox P := by
+  obtain ⟨n0, n1, cts, _, _, _, _, rfl⟩ := buildTransport_ok h
+  constructor <;>
+  · intro v hv
+    simp only [trProblem, TransportP.capsTimes, List.mem_map] at hv
+    obtain ⟨w, _, rfl⟩ := hv
+    grind
+
+theorem extTransport_zeroBox {p : TransportP} {g : Grid} {prices : Prices} {fullT u : Nat} {P : AssetProblem}
+    (h : buildExtTransport (p.capsTimes 0) g prices fullT u = .ok P) : ZeroBox P := by
+  obtain ⟨a, ha, rfl⟩ := buildExtTransport_ok h
+  exact (transport_zeroBox ha : ZeroBox a)
 
 end EAO.ScaleBuild
